@@ -84,6 +84,17 @@ def states(tier, seed):
             out.append(dict(c, rel="R3", heavyness="total"))
         if proc == "NC" and sc in ("ZM-VFNS", "FFNS3") and not (extra.get("tmc") == 3):
             out.append(dict(c, rel="R4", heavyness="total"))
+    # combinations of options (each harmless alone): polarised anti-lepton beam + nuclear target + TMC at PTO 2, in every relation
+    for kind, sc in itertools.product(["F2", "F3", "g1", "FL"], ["FFNS3", "FONLL-FFNS4", "FONLL-FFN03", "ZM-VFNS"]):
+        base = {"kind": kind, "process": "NC", "pto": 2, "scheme": sc, "target": "iron", "Q2": 30.0, "projectile": "positron", "obscard": {"PolarizationDIS": 0.7, "PropagatorCorrection": 0.05}, "tmc": 1 if kind != "FL" else 0}
+        out.append(dict(base, rel="R12"))
+        if sc.startswith("FONLL"):
+            out.append(dict(base, rel="R3", heavyness="total"))
+            out.append(dict(base, rel="R3", heavyness="charm", theory={"RenScaleVar": False, "FactScaleVar": False}))
+        if sc in ("ZM-VFNS", "FFNS3"):
+            out.append(dict(base, rel="R4", heavyness="total"))
+    for kind, sc in itertools.product(["F2", "F3"], ["FFNS4", "FONLL-FFNS3"]):
+        out.append({"rel": "R12", "kind": kind, "process": "CC", "pto": 2 if sc == "FFNS4" else 1, "scheme": sc, "target": "iron", "Q2": 30.0, "projectile": "antineutrino", "tmc": 3, "theory": {"RenScaleVar": False}})
     # R3
     fs = FONLL_SCHEMES if tier == "thorough" else ["FONLL-FFNS3", "FONLL-FFNS4", "FONLL-FFN03"]
     for kind, proc, pto, sc, hv, q2 in itertools.product(SF_KINDS, PROCS, ptos, fs, ["total", "charm", "bottom", "light"], q2s):
